@@ -891,3 +891,88 @@ func c17r14(c *Ctx, r *Report) {
 	}
 	r.floor("stores into Options.Theme", n, 4)
 }
+
+// c07r7: with --tmux (and the Windows/mintty proxy) fzf runs itself in a popup and relays the child's output
+// from a FIFO in a goroutine. The relay must be joined before runProxy returns: main exits as soon as it
+// gets the exit code, and whatever the goroutine has not copied yet is lost (D29: nothing
+// waited for the goroutine; with a consumer slower than the producer the last ~64 KB of a large
+// multi-selection are dropped and the exit status is still 0).
+func c07r7(c *Ctx, r *Report) {
+	l := c.L
+	r.rule("C07-R7", "A (must-pass-through: join before return)", "P1",
+		"in runProxy, for the goroutine that relays the popup's output (its closure calls withOutputPipe), every path from the call of cmd.Run to the return of ExitOk passes a join on that goroutine: a receive from a channel bound to the closure, or Wait on a WaitGroup bound to it",
+		"under --tmux the tail of the output (the last selected records) is lost and the last printed record may be cut in the middle, with exit status 0")
+	rp := l.Fn("fzf", "runProxy")
+	wop := l.Fn("fzf", "withOutputPipe")
+	if rp == nil || wop == nil {
+		r.unest("anchors", token.NoPos, nil, "anchors runProxy / withOutputPipe", "cannot resolve")
+		return
+	}
+	var relay *ssa.Go
+	eachInstr(rp, func(in ssa.Instruction) {
+		g, ok := in.(*ssa.Go)
+		if !ok {
+			return
+		}
+		mc, ok := g.Call.Value.(*ssa.MakeClosure)
+		if !ok {
+			return
+		}
+		for _, f := range withClosures(mc.Fn.(*ssa.Function)) {
+			eachInstr(f, func(i2 ssa.Instruction) {
+				if c2, ok := i2.(*ssa.Call); ok && callIs(c2.Common(), wop) {
+					relay = g
+				}
+			})
+		}
+	})
+	var run ssa.Instruction
+	eachInstr(rp, func(in ssa.Instruction) {
+		if c2, ok := in.(*ssa.Call); ok && calleeName(c2.Common()) == "(*os/exec.Cmd).Run" {
+			run = in
+		}
+	})
+	if relay == nil || run == nil {
+		r.unest("anchors", token.NoPos, rp, "the relay goroutine and the cmd.Run call in runProxy", "cannot find them")
+		return
+	}
+	bound := map[ssa.Value]bool{}
+	for _, b := range relay.Call.Value.(*ssa.MakeClosure).Bindings {
+		bound[b] = true
+	}
+	isJoin := func(in ssa.Instruction) bool {
+		switch x := in.(type) {
+		case *ssa.UnOp:
+			if x.Op != token.ARROW {
+				return false
+			}
+			for w := range backwardSlice(x.X, nil, nil) {
+				if bound[w] {
+					return true
+				}
+			}
+		case *ssa.Call:
+			if calleeName(x.Common()) == "(*sync.WaitGroup).Wait" {
+				for w := range backwardSlice(x.Call.Args[0], nil, nil) {
+					if bound[w] {
+						return true
+					}
+				}
+			}
+		}
+		return false
+	}
+	// the successful return: the exit code is the constant ExitOk. (After a failed command the FIFO may
+	// never have been opened by a writer, and waiting for the relay would block for ever.)
+	isRet := func(in ssa.Instruction) bool {
+		ret, ok := in.(*ssa.Return)
+		return ok && len(ret.Results) == 2 && isConstInt(ret.Results[0], 0)
+	}
+	esc := pathAvoiding(run, isRet, isJoin, nil)
+	where := ""
+	if esc != nil {
+		where = l.pos(esc.Pos())
+	}
+	r.check(esc == nil, fmt.Sprintf("%s:output relay goroutine is joined", relName(rp)), relay.Pos(), rp,
+		"the successful return after cmd.Run waits for the relay", fmt.Sprintf("the return at %s is reached after cmd.Run without waiting for the goroutine that copies the popup's output: the process exits with output still in the FIFO", where))
+}
